@@ -153,4 +153,532 @@ theorem eqv_refl (a : Atom) : a.eqv a = true := by
 theorem eqv_trans (a b c : Atom) (h1 : a.eqv b = true) (h2 : b.eqv c = true) : a.eqv c = true := by
   rw [eqv_congr_left a b c h1]; exact h2
 
+
+/-! ### finite tables about the comparison operators -/
+
+def isOrd : Op → Bool
+  | .lt | .le | .gt | .ge => true
+  | _ => false
+
+def isLower : Op → Bool
+  | .gt | .ge => true
+  | _ => false
+
+def isUpper : Op → Bool
+  | .lt | .le => true
+  | _ => false
+
+/-- same direction, `x` wins: everything above/below `x` is above/below `y` -/
+theorem fin_sameX (xop yop : Op) (o1 o2 o3 : Ordering) :
+    isOrd xop = true → (opInfo xop).2 = (opInfo yop).2 → consistent o1 o2 o3 = true →
+    opHolds (opInfo xop).1 o2 = true → opHolds xop o1 = true → opHolds yop o3 = true := by
+  cases xop <;> cases yop <;> cases o1 <;> cases o2 <;> cases o3 <;> decide
+
+/-- same direction, `y` wins (`o1 = cmp v b`, `o2 = cmp a b`, `o3 = cmp v a`) -/
+theorem fin_sameY (xop yop : Op) (o1 o2 o3 : Ordering) :
+    isOrd xop = true → (opInfo xop).2 = (opInfo yop).2 → consistent o1 o2.swap o3 = true →
+    opHolds (opInfo xop).1 o2 = false → opHolds yop o1 = true → opHolds xop o3 = true := by
+  cases xop <;> cases yop <;> cases o1 <;> cases o2 <;> cases o3 <;> decide
+
+/-- opposite directions: an error outcome of the string/bytes/number cell means the interval is
+empty (`o1 = cmp v a`, `c = cmp a b`, `o3 = cmp v b`) -/
+theorem fin_opp (xop yop : Op) (o1 c o3 : Ordering) :
+    isLower xop = true → isUpper yop = true → consistent o1 c o3 = true →
+    simplifyStrOpp xop yop c = .err → ¬ (opHolds xop o1 = true ∧ opHolds yop o3 = true) := by
+  cases xop <;> cases yop <;> cases o1 <;> cases c <;> cases o3 <;> decide
+
+theorem cat_same_ord (xop yop : Op) (h : (opInfo xop).2 = (opInfo yop).2) (hx : isOrd xop = true) :
+    isOrd yop = true := by
+  cases xop <;> cases yop <;> revert h hx <;> decide
+
+theorem cat_same_nonord (xop yop : Op) (h : (opInfo xop).2 = (opInfo yop).2) (hx : ¬ isOrd xop = true) :
+    yop = xop := by
+  cases xop <;> cases yop <;> revert h hx <;> decide
+
+theorem cat_opp (xop yop : Op) (h : (opInfo xop).2 = -(opInfo yop).2) (hne : (opInfo xop).2 ≠ (opInfo yop).2) :
+    (isLower xop = true ∧ isUpper yop = true ∧ (opInfo xop).2 = 1) ∨
+    (isUpper xop = true ∧ isLower yop = true ∧ (opInfo xop).2 = -1) := by
+  cases xop <;> cases yop <;> revert h hne <;> decide
+
+/-! ### unfolding `boundHolds` / `binOpBool` -/
+
+theorem boundHolds_ord (re : Bytes → Bytes → Bool) (op : Op) (a v : Atom) (h : isOrd op = true) :
+    boundHolds re ⟨op, a⟩ v = (match ordCmp v a with | some o => opHolds op o | none => false) := by
+  cases op <;> first | rfl | cases h
+
+theorem binOpBool_ord (re : Bytes → Bytes → Bool) (op : Op) (l r : Atom) (h : isOrd op = true) :
+    binOpBool re op l r = (match ordCmp l r with | some o => opHolds op o | none => false) := by
+  cases op <;> first | rfl | cases h
+
+/-- on atoms the bound admits, validation by `BinOp` is the specification's comparison -/
+theorem binOpBool_eq_holds (re : Bytes → Bytes → Bool) (b : Bound) (v : Atom) :
+    binOpBool re b.op v b.val = boundHolds re b v := by
+  obtain ⟨op, a⟩ := b
+  cases op
+  case mat => cases v <;> cases a <;> simp [binOpBool, boundHolds, Atom.isStr, Atom.strVal]
+  case nmat => cases v <;> cases a <;> simp [binOpBool, boundHolds, Atom.isStr, Atom.strVal]
+  all_goals rfl
+
+theorem isOrd_cmpOp (op : Op) (h : isOrd op = true) : isOrd (opInfo op).1 = true := by
+  cases op <;> first | rfl | cases h
+
+/-- an atom a well-kinded ordering bound admits is comparable with the operand as soon as it is
+comparable with anything -/
+theorem ordCmp_some_of_admits (op : Op) (a v w : Atom) (o : Ordering) (hop : isOrd op = true)
+    (had : boundAdmits ⟨op, a⟩ v = true) (hw : ordCmp v w = some o) : ∃ o', ordCmp v a = some o' := by
+  cases a <;> cases v <;>
+    simp [boundAdmits, Atom.isNum, Atom.sameKind, Atom.kindBit] at had <;>
+    first
+      | exact ⟨_, rfl⟩
+      | (subst had; simp [isOrd] at hop)
+      | (cases w <;> simp [ordCmp, Atom.num?] at hw)
+
+/-! ### the same-category cells -/
+
+theorem ite_X_both {c : Prop} [Decidable c] (h : (if c then Outcome.keepX else .both) = .keepX) : c := by
+  split at h <;> first | assumption | cases h
+
+theorem ite_X_Y {c : Prop} [Decidable c] (h : (if c then Outcome.keepX else .keepY) = .keepX) : c := by
+  split at h <;> first | assumption | cases h
+
+theorem ite_X_Y' {c : Prop} [Decidable c] (h : (if c then Outcome.keepX else .keepY) = .keepY) : ¬ c := by
+  split at h <;> first | assumption | cases h
+
+theorem same_keepX (re : Bytes → Bytes → Bool) (x y : Bound) (v : Atom)
+    (hcat : (opInfo x.op).2 = (opInfo y.op).2)
+    (h : simplifySame re x y = .keepX) (hv : boundHolds re x v = true) : boundHolds re y v = true := by
+  obtain ⟨xop, a⟩ := x
+  obtain ⟨yop, b⟩ := y
+  by_cases hx : isOrd xop = true
+  · -- ordering bounds of the same direction
+    have hy := cat_same_ord xop yop hcat hx
+    have h' : binOpBool re (opInfo xop).1 a b = true := by
+      cases xop <;> simp [isOrd] at hx <;> exact ite_X_Y h
+    rw [binOpBool_ord re _ _ _ (isOrd_cmpOp _ hx)] at h'
+    rw [boundHolds_ord re _ _ _ hx] at hv
+    rw [boundHolds_ord re _ _ _ hy]
+    cases h1 : ordCmp v a with
+    | none => rw [h1] at hv; cases hv
+    | some o1 =>
+      cases h2 : ordCmp a b with
+      | none => rw [h2] at h'; cases h'
+      | some o2 =>
+        rw [h1] at hv; rw [h2] at h'
+        obtain ⟨o3, h3, hc⟩ := ordCmp_consistent v a b o1 o2 h1 h2
+        rw [h3]
+        exact fin_sameX xop yop o1 o2 o3 hx hcat hc h' hv
+  · -- `!=`, `=~`, `!~`: the operands are equal
+    have he : a.eqv b = true := by
+      cases xop <;> simp [isOrd] at hx <;> exact ite_X_both h
+    have hyop : yop = xop := cat_same_nonord xop yop hcat hx
+    subst hyop
+    cases yop <;> simp [isOrd] at hx
+    · -- ne
+      simp only [boundHolds] at hv ⊢
+      rw [eqv_symm v b, ← eqv_congr_left a b v he, eqv_symm a v]; exact hv
+    · -- mat
+      cases v <;> cases a <;> cases b <;> simp_all [boundHolds, Atom.eqv, Atom.num?]
+    · cases v <;> cases a <;> cases b <;> simp_all [boundHolds, Atom.eqv, Atom.num?]
+
+theorem same_keepY (re : Bytes → Bytes → Bool) (x y : Bound) (v : Atom)
+    (hcat : (opInfo x.op).2 = (opInfo y.op).2) (hadx : boundAdmits x v = true)
+    (h : simplifySame re x y = .keepY) (hv : boundHolds re y v = true) : boundHolds re x v = true := by
+  obtain ⟨xop, a⟩ := x
+  obtain ⟨yop, b⟩ := y
+  have hx : isOrd xop = true := by
+    cases xop <;> first | rfl | (exfalso; simp only [simplifySame] at h; split at h <;> cases h)
+  have hy := cat_same_ord xop yop hcat hx
+  have h' : binOpBool re (opInfo xop).1 a b = false := by
+    cases xop <;> simp [isOrd] at hx <;> exact Bool.eq_false_iff.2 (ite_X_Y' h)
+  rw [binOpBool_ord re _ _ _ (isOrd_cmpOp _ hx)] at h'
+  rw [boundHolds_ord re _ _ _ hy] at hv
+  rw [boundHolds_ord re _ _ _ hx]
+  cases h1 : ordCmp v b with
+  | none => rw [h1] at hv; cases hv
+  | some o1 =>
+    rw [h1] at hv
+    obtain ⟨o3, h3⟩ := ordCmp_some_of_admits xop a v b o1 hx hadx h1
+    -- then `a` and `b` are comparable
+    have hab : ∃ o2, ordCmp a b = some o2 := by
+      have h3' : ordCmp a v = some o3.swap := by rw [ordCmp_swap v a, h3]; rfl
+      obtain ⟨o, ho, _⟩ := ordCmp_consistent a v b _ _ h3' h1
+      exact ⟨o, ho⟩
+    obtain ⟨o2, h2⟩ := hab
+    rw [h2] at h'
+    have hba : ordCmp b a = some o2.swap := by rw [ordCmp_swap a b, h2]; rfl
+    obtain ⟨o3', h3', hc⟩ := ordCmp_consistent v b a o1 _ h1 hba
+    rw [h3] at h3'; cases h3'
+    rw [h3]
+    exact fin_sameY xop yop o1 o2 o3 hx hcat hc h' hv
+
+
+/-! ### the `!=` cells -/
+
+theorem binOpBool_congr_left (re : Bytes → Bytes → Bool) (op : Op) (l l' r : Atom)
+    (h : l.eqv l' = true) : binOpBool re op l r = binOpBool re op l' r := by
+  cases op
+  case ne => simp only [binOpBool]; rw [eqv_congr_left l l' r h]
+  case mat => cases l <;> cases l' <;> simp_all [binOpBool, Atom.eqv, Atom.num?, Atom.isStr, Atom.strVal]
+  case nmat => cases l <;> cases l' <;> simp_all [binOpBool, Atom.eqv, Atom.num?, Atom.isStr, Atom.strVal]
+  all_goals (simp only [binOpBool]; rw [ordCmp_congr_left l l' r h])
+
+theorem ne_keepY (re : Bytes → Bytes → Bool) (x y : Bound) (v : Atom)
+    (h : simplifyNe re x y = .keepY) (hv : boundHolds re y v = true) : boundHolds re x v = true := by
+  obtain ⟨xop, a⟩ := x
+  unfold simplifyNe at h
+  split at h
+  · rename_i hx
+    simp only [beq_iff_eq] at hx; subst hx
+    split at h
+    · rename_i hb
+      simp only [boundHolds]
+      cases hva : v.eqv a with
+      | false => rfl
+      | true =>
+        rw [← binOpBool_eq_holds, binOpBool_congr_left re y.op v a y.val hva] at hv
+        simp [hv] at hb
+    · cases h
+  · split at h
+    · split at h <;> cases h
+    · cases h
+
+theorem ne_keepX (re : Bytes → Bytes → Bool) (x y : Bound) (v : Atom)
+    (h : simplifyNe re x y = .keepX) (hv : boundHolds re x v = true) : boundHolds re y v = true := by
+  obtain ⟨yop, b⟩ := y
+  unfold simplifyNe at h
+  split at h
+  · split at h <;> cases h
+  · split at h
+    · rename_i hy
+      simp only [beq_iff_eq] at hy; subst hy
+      split at h
+      · rename_i hb
+        simp only [boundHolds]
+        cases hvb : v.eqv b with
+        | false => rfl
+        | true =>
+          rw [← binOpBool_eq_holds, binOpBool_congr_left re x.op v b x.val hvb] at hv
+          simp [hv] at hb
+      · cases h
+    · cases h
+
+theorem ne_not_err (re : Bytes → Bytes → Bool) (x y : Bound) : simplifyNe re x y ≠ .err := by
+  unfold simplifyNe
+  repeat' split
+  all_goals simp
+
+theorem same_not_err (re : Bytes → Bytes → Bool) (x y : Bound) : simplifySame re x y ≠ .err := by
+  unfold simplifySame
+  repeat' split
+  all_goals simp
+
+/-! ### the opposite-direction cells -/
+
+theorem opHolds_ge (o : Ordering) : opHolds .ge o = o.isGE := by cases o <;> rfl
+theorem opHolds_gt (o : Ordering) : opHolds .gt o = (o == .gt) := by cases o <;> rfl
+theorem opHolds_le (o : Ordering) : opHolds .le o = o.isLE := by cases o <;> rfl
+theorem opHolds_lt (o : Ordering) : opHolds .lt o = (o == .lt) := by cases o <;> rfl
+
+/-- a decimal that equals the integer `m` compares with integers like `m` -/
+theorem cmp_int_of_eq (d : Dec) (m n : Int) (h : Dec.cmp d (Dec.ofInt m) = .eq) :
+    Dec.cmp d (Dec.ofInt n) = compare m n := by
+  rw [TransCmp.congr_left (cmp := Dec.cmp) h, Dec.cmp_ofInt_ofInt]
+
+theorem numOpp_err_float (k : Kind) (xop yop : Op) (a b : Dec) (hk : k.hasFloat = true)
+    (h : simplifyNumOpp k xop yop a b = .err) : simplifyStrOpp xop yop (Dec.cmp a b) = .err := by
+  have e1 : adjLo k xop a = a := by simp [adjLo, hk]
+  have e2 : adjHi k yop b = b := by simp [adjHi, hk]
+  unfold simplifyNumOpp at h
+  rw [e1, e2] at h
+  unfold numOppCore at h
+  split at h
+  · cases h
+  · split at h
+    · cases h
+    · rename_i d hd
+      have hd' := Dec.sub34_eq _ _ _ hd
+      subst hd'
+      split at h
+      · rename_i hneg
+        have h1 := (Dec.sub_coeff_neg_iff b a).1 hneg
+        have h2 : Dec.cmp a b = .gt := OrientedCmp.gt_of_lt h1
+        rw [h2]; rfl
+      · split at h
+        · cases h
+        · rename_i z hz
+          split at h
+          · simp [hk] at h
+          · split at h
+            · rename_i hz0
+              have hz0' : z = 0 := by simpa using hz0
+              subst hz0'
+              have h1 := Dec.intVal?_eq_some _ _ hz
+              rw [Dec.cmp_sub_zero] at h1
+              have h2 : Dec.cmp a b = .eq := OrientedCmp.eq_symm h1
+              rw [h2]; simp only [simplifyStrOpp]; exact h
+            · cases h
+
+/-- the integer adjusted lower end: `>=a` starts at `ceil a`, `>a` above `floor a` -/
+theorem lo_int (k : Kind) (xop : Op) (a : Dec) (hk : k.hasFloat = false)
+    (fa : a.exp < 0 → a.fits34 = true) :
+    Dec.cmp (adjLo k xop a) (Dec.ofInt (if xop == .ge then Dec.ceil a else Dec.floor a)) = .eq := by
+  unfold adjLo
+  by_cases he : a.exp < 0
+  · simp only [hk, he, Bool.not_false, Bool.true_and, decide_true, if_true]
+    by_cases hx : (xop == .ge) = true
+    · simp only [hx, if_true]; rw [Dec.ceil34_eq a (fa he)]; exact ReflCmp.compare_self
+    · simp only [hx, if_false, Bool.false_eq_true]; rw [Dec.floor34_eq a (fa he)]; exact ReflCmp.compare_self
+  · simp only [hk, he, Bool.not_false, Bool.true_and, decide_false, Bool.false_eq_true, if_false]
+    have hi := Dec.isInt_of_exp_nonneg a (by omega)
+    rw [Dec.ceil_eq_floor_of_isInt a hi]
+    simp only [ite_self]
+    exact Dec.cmp_floor_of_isInt a hi
+
+theorem hi_int (k : Kind) (yop : Op) (b : Dec) (hk : k.hasFloat = false)
+    (fb : b.exp < 0 → b.fits34 = true) :
+    Dec.cmp (adjHi k yop b) (Dec.ofInt (if yop == .le then Dec.floor b else Dec.ceil b)) = .eq := by
+  unfold adjHi
+  by_cases he : b.exp < 0
+  · simp only [hk, he, Bool.not_false, Bool.true_and, decide_true, if_true]
+    by_cases hx : (yop == .le) = true
+    · simp only [hx, if_true]; rw [Dec.floor34_eq b (fb he)]; exact ReflCmp.compare_self
+    · simp only [hx, if_false, Bool.false_eq_true]; rw [Dec.ceil34_eq b (fb he)]; exact ReflCmp.compare_self
+  · simp only [hk, he, Bool.not_false, Bool.true_and, decide_false, Bool.false_eq_true, if_false]
+    have hi := Dec.isInt_of_exp_nonneg b (by omega)
+    rw [Dec.ceil_eq_floor_of_isInt b hi]
+    simp only [ite_self]
+    exact Dec.cmp_floor_of_isInt b hi
+
+/-- the integer cell in terms of the adjusted integer ends `L` (lower) and `H` (upper) -/
+theorem numOpp_err_core (k : Kind) (xop yop : Op) (lo hi : Dec) (L H : Int)
+    (hlo : Dec.cmp lo (Dec.ofInt L) = .eq) (hhi : Dec.cmp hi (Dec.ofInt H) = .eq)
+    (h : numOppCore k xop yop lo hi = .err) :
+    H < L ∨ (H = L + 1 ∧ xop = .gt ∧ yop = .lt) ∨ (H = L ∧ ¬ (xop = .ge ∧ yop = .le)) := by
+  unfold numOppCore at h
+  split at h
+  · cases h
+  split at h
+  · cases h
+  · rename_i d hd
+    have hd' := Dec.sub34_eq _ _ _ hd
+    subst hd'
+    have hD := Dec.cmp_sub_ofInt hi lo H L hhi hlo
+    split at h
+    · rename_i hneg
+      left
+      have h1 := (Dec.sub_coeff_neg_iff hi lo).1 hneg
+      rw [← Dec.cmp_sub_zero, cmp_int_of_eq _ _ 0 hD] at h1
+      have := Int.compare_eq_lt.1 h1
+      omega
+    · split at h
+      · cases h
+      · rename_i z hz
+        have h1 := Dec.intVal?_eq_some _ _ hz
+        rw [cmp_int_of_eq _ _ z hD] at h1
+        have hz' : H - L = z := Int.compare_eq_eq.1 h1
+        split at h
+        · rename_i hz1
+          have : z = 1 := by simpa using hz1
+          split at h
+          · rename_i hc
+            simp only [Bool.and_eq_true, beq_iff_eq] at hc
+            right; left; exact ⟨by omega, hc.1.2, hc.2⟩
+          · cases h
+        · split at h
+          · rename_i hz0
+            have : z = 0 := by simpa using hz0
+            split at h
+            · cases h
+            · rename_i hc
+              simp only [Bool.and_eq_true, beq_iff_eq] at hc
+              right; right; exact ⟨by omega, hc⟩
+          · cases h
+
+theorem numOpp_err_int (k : Kind) (xop yop : Op) (a b : Dec) (hk : k.hasFloat = false)
+    (hx : isLower xop = true) (hy : isUpper yop = true)
+    (fa : a.exp < 0 → a.fits34 = true) (fb : b.exp < 0 → b.fits34 = true)
+    (h : simplifyNumOpp k xop yop a b = .err) (n : Int) :
+    ¬ (opHolds xop (Dec.cmp (Dec.ofInt n) a) = true ∧ opHolds yop (Dec.cmp (Dec.ofInt n) b) = true) := by
+  have hcore := numOpp_err_core k xop yop _ _ _ _ (lo_int k xop a hk fa) (hi_int k yop b hk fb) h
+  intro ⟨h1, h2⟩
+  cases xop <;> simp [isLower] at hx <;> cases yop <;> simp [isUpper] at hy <;>
+    simp only [opHolds_ge, opHolds_gt, opHolds_le, opHolds_lt, beq_iff_eq,
+      Dec.ofInt_ge_iff, Dec.ofInt_gt_iff, Dec.ofInt_le_iff, Dec.ofInt_lt_iff] at h1 h2 <;>
+    simp at hcore <;> omega
+
+
+/-! ### kinds -/
+
+def Kind.sub (k k' : Kind) : Prop := ∀ v : Atom, Kind.has k v = true → Kind.has k' v = true
+
+theorem Kind.has_and (k k' : Kind) (v : Atom) : Kind.has (k &&& k') v = (Kind.has k v && Kind.has k' v) := by
+  simp only [Kind.has, Nat.testBit_and]
+
+theorem Kind.has_zero (v : Atom) : Kind.has 0 v = false := by
+  simp only [Kind.has, Nat.zero_testBit]
+
+theorem Kind.sub_and_left (k k' : Kind) : Kind.sub (k &&& k') k := by
+  intro v h; rw [Kind.has_and] at h; simp only [Bool.and_eq_true] at h; exact h.1
+
+theorem Kind.sub_and_right (k k' : Kind) : Kind.sub (k &&& k') k' := by
+  intro v h; rw [Kind.has_and] at h; simp only [Bool.and_eq_true] at h; exact h.2
+
+theorem Kind.sub_trans {a b c : Kind} (h1 : Kind.sub a b) (h2 : Kind.sub b c) : Kind.sub a c :=
+  fun v h => h2 v (h1 v h)
+
+theorem kind_has_admits (b : Bound) (v : Atom) : Kind.has b.kind v = boundAdmits b v := by
+  obtain ⟨op, a⟩ := b
+  cases a <;> cases v <;> first | rfl | (cases op <;> rfl)
+
+theorem atom_kind_has (a v : Atom) : Kind.has a.kind v = v.sameKind a := by
+  cases a <;> cases v <;> rfl
+
+theorem bound_kind_ne_zero (b : Bound) : b.kind ≠ 0 := by
+  obtain ⟨op, a⟩ := b
+  cases a <;> first | decide | (cases op <;> decide)
+
+theorem atom_kind_ne_zero (a : Atom) : a.kind ≠ 0 := by cases a <;> decide
+
+theorem top_has (v : Atom) : Kind.has Kind.top v = true := by cases v <;> rfl
+
+theorem has_float (k : Kind) (d : Dec) : Kind.has k (.float d) = k.hasFloat := rfl
+
+/-! ### soundness of `simplifyBounds` -/
+
+theorem isOrd_of_lower (op : Op) (h : isLower op = true) : isOrd op = true := by
+  cases op <;> first | rfl | cases h
+
+theorem isOrd_of_upper (op : Op) (h : isUpper op = true) : isOrd op = true := by
+  cases op <;> first | rfl | cases h
+
+theorem opp_generic (re : Bytes → Bytes → Bool) (lo hi : Bound) (v : Atom) (c : Ordering)
+    (hlo : isLower lo.op = true) (hhi : isUpper hi.op = true)
+    (hc : ordCmp lo.val hi.val = some c) (he : simplifyStrOpp lo.op hi.op c = .err) :
+    ¬ (boundHolds re lo v = true ∧ boundHolds re hi v = true) := by
+  obtain ⟨lop, a⟩ := lo
+  obtain ⟨hop, b⟩ := hi
+  intro ⟨h1, h2⟩
+  rw [boundHolds_ord re _ _ _ (isOrd_of_lower _ hlo)] at h1
+  rw [boundHolds_ord re _ _ _ (isOrd_of_upper _ hhi)] at h2
+  cases hva : ordCmp v a with
+  | none => rw [hva] at h1; cases h1
+  | some o1 =>
+    rw [hva] at h1
+    obtain ⟨o3, h3, hcons⟩ := ordCmp_consistent v a b o1 c hva hc
+    rw [h3] at h2
+    exact fin_opp lop hop o1 c o3 hlo hhi hcons he ⟨h1, h2⟩
+
+theorem ordCmp_num (v w : Atom) (x y : Dec) (hv : v.num? = some x) (hw : w.num? = some y) :
+    ordCmp v w = some (Dec.cmp x y) := by
+  cases v <;> simp [Atom.num?] at hv <;> cases w <;> simp [Atom.num?] at hw <;> subst hv <;> subst hw <;> rfl
+
+theorem ordCmp_nonnum (v w : Atom) (y : Dec) (hv : v.num? = none) (hw : w.num? = some y) :
+    ordCmp v w = none := by
+  cases v <;> simp [Atom.num?] at hv <;> cases w <;> simp [Atom.num?] at hw <;> rfl
+
+theorem small_fits (b : Bound) (a : Dec) (hs : b.small = true) (hn : b.val.num? = some a) :
+    a.exp < 0 → a.fits34 = true := by
+  obtain ⟨op, val⟩ := b
+  cases val <;> simp [Atom.num?] at hn
+  · subst hn; intro h; simp [Dec.ofInt] at h
+  · subst hn; intro _; exact hs
+
+theorem opp_err (re : Bytes → Bytes → Bool) (k : Kind) (lo hi : Bound) (v : Atom)
+    (hlo : isLower lo.op = true) (hhi : isUpper hi.op = true)
+    (slo : lo.small = true) (shi : hi.small = true) (hk : Kind.has k v = true)
+    (h : simplifyOpp k lo hi = .err) :
+    ¬ (boundHolds re lo v = true ∧ boundHolds re hi v = true) := by
+  unfold simplifyOpp at h
+  split at h
+  · split at h
+    · rename_i a b ha hb
+      exact opp_generic re lo hi v _ hlo hhi (by rw [ha, hb]; rfl) h
+    · cases h
+  · split at h
+    · split at h
+      · rename_i a b ha hb
+        exact opp_generic re lo hi v _ hlo hhi (by rw [ha, hb]; rfl) h
+      · cases h
+    · split at h
+      · rename_i a b ha hb
+        by_cases hf : k.hasFloat = true
+        · exact opp_generic re lo hi v _ hlo hhi (ordCmp_num _ _ _ _ ha hb)
+            (numOpp_err_float k _ _ a b hf h)
+        · have hf' : k.hasFloat = false := by simpa using hf
+          intro ⟨h1, h2⟩
+          obtain ⟨lop, lv⟩ := lo
+          obtain ⟨hop, hv⟩ := hi
+          rw [boundHolds_ord re _ _ _ (isOrd_of_lower _ hlo)] at h1
+          rw [boundHolds_ord re _ _ _ (isOrd_of_upper _ hhi)] at h2
+          cases hvn : v.num? with
+          | none => rw [ordCmp_nonnum v lv a hvn ha] at h1; cases h1
+          | some dv =>
+            cases v <;> simp [Atom.num?] at hvn
+            · subst hvn
+              rw [ordCmp_num _ _ _ _ rfl ha] at h1
+              rw [ordCmp_num _ _ _ _ rfl hb] at h2
+              exact numOpp_err_int k lop hop a b hf' hlo hhi
+                (small_fits ⟨lop, lv⟩ a slo ha) (small_fits ⟨hop, hv⟩ b shi hb) h _ ⟨h1, h2⟩
+            · rw [has_float, hf'] at hk; cases hk
+      · cases h
+
+theorem strOpp_both_or_err (xop yop : Op) (c : Ordering) :
+    simplifyStrOpp xop yop c = .both ∨ simplifyStrOpp xop yop c = .err := by
+  unfold simplifyStrOpp; cases c <;> simp <;> split <;> simp
+
+theorem numOpp_both_or_err (k : Kind) (xop yop : Op) (a b : Dec) :
+    simplifyNumOpp k xop yop a b = .both ∨ simplifyNumOpp k xop yop a b = .err := by
+  unfold simplifyNumOpp numOppCore
+  repeat' split
+  all_goals simp
+
+theorem opp_both_or_err (k : Kind) (lo hi : Bound) :
+    simplifyOpp k lo hi = .both ∨ simplifyOpp k lo hi = .err := by
+  unfold simplifyOpp
+  repeat' split
+  all_goals first | exact strOpp_both_or_err _ _ _ | exact numOpp_both_or_err _ _ _ _ _ | simp
+
+/-- Every outcome of `SimplifyBounds` is sound for atoms both bounds admit. -/
+theorem simplify_sound (re : Bytes → Bytes → Bool) (k : Kind) (x y : Bound) (v : Atom)
+    (hax : boundAdmits x v = true) (_hay : boundAdmits y v = true) (hk : Kind.has k v = true)
+    (sx : x.small = true) (sy : y.small = true) :
+    match simplifyBounds re k x y with
+    | .keepX => boundHolds re x v = true → boundHolds re y v = true
+    | .keepY => boundHolds re y v = true → boundHolds re x v = true
+    | .err => ¬ (boundHolds re x v = true ∧ boundHolds re y v = true)
+    | .both => True := by
+  unfold simplifyBounds
+  simp only
+  by_cases hc : (opInfo x.op).2 = (opInfo y.op).2
+  · simp only [hc, beq_self_eq_true, if_true]
+    cases h : simplifySame re x y with
+    | keepX => exact same_keepX re x y v hc h
+    | keepY => exact same_keepY re x y v hc hax h
+    | both => trivial
+    | err => exact absurd h (same_not_err re x y)
+  · have hc' : ((opInfo x.op).2 == (opInfo y.op).2) = false := by simpa using hc
+    simp only [hc', Bool.false_eq_true, if_false]
+    by_cases ho : (opInfo x.op).2 = -(opInfo y.op).2
+    · have ho' : ((opInfo x.op).2 == -(opInfo y.op).2) = true := by simpa using ho
+      simp only [ho', if_true]
+      rcases cat_opp x.op y.op ho hc with ⟨hl, hu, h1⟩ | ⟨hu, hl, h1⟩
+      · have : ((opInfo x.op).2 == -1) = false := by rw [h1]; decide
+        simp only [this, Bool.false_eq_true, if_false]
+        rcases opp_both_or_err k x y with h | h <;> rw [h]
+        · trivial
+        · exact opp_err re k x y v hl hu sx sy hk h
+      · have : ((opInfo x.op).2 == -1) = true := by rw [h1]; decide
+        simp only [this, if_true]
+        rcases opp_both_or_err k y x with h | h <;> rw [h]
+        · trivial
+        · intro ⟨h1, h2⟩
+          exact opp_err re k y x v hl hu sy sx hk h ⟨h2, h1⟩
+    · have ho' : ((opInfo x.op).2 == -(opInfo y.op).2) = false := by simpa using ho
+      simp only [ho', Bool.false_eq_true, if_false]
+      cases h : simplifyNe re x y with
+      | keepX => exact ne_keepX re x y v h
+      | keepY => exact ne_keepY re x y v h
+      | both => trivial
+      | err => exact absurd h (ne_not_err re x y)
+
 end CueVerif.Scalar
